@@ -40,7 +40,12 @@ def runPairModel (g : Globals) (old new : List Stmt) : PairRun :=
   let up := do let (_, ss) ← r1; renderMigration g ss
   let r2 := do let (d1, _) ← r1; d1.migrationDown g
   let down := do let (_, ss) ← r2; renderMigration g ss
-  let r3 := do let (d2, _) ← r2; d2.migrationUp g
+  -- a panicking StringDown is recovered by the harness; the instance keeps the state it had before the call
+  let r3 := do
+    let d2 ← (match r2 with
+      | .ok (d2, _) => pure d2
+      | .error _ => do let (d1, _) ← r1; pure d1 : M Migration)
+    d2.migrationUp g
   let up2 := do let (_, ss) ← r3; renderMigration g ss
   { mOld, mNew, mDiff, up, down, up2 }
 
